@@ -281,6 +281,9 @@ Units == <<
   [s |-> "mK", d |-> "temperature", n |-> 2, c |-> "prefixed"],
   [s |-> "R", d |-> "temperature", n |-> 3, c |-> "other"],
   [s |-> "MK", d |-> "temperature", n |-> 4, c |-> "prefixed"],
+  \* temperature scales with an offset (class "offset": a reading y means (y + off) * scale kelvin, see Offsets)
+  [s |-> "degC", d |-> "temperature", n |-> 5, c |-> "offset"],
+  [s |-> "degF", d |-> "temperature", n |-> 6, c |-> "offset"],
   [s |-> "m/s", d |-> "velocity", n |-> 1, c |-> "si"],
   [s |-> "km/s", d |-> "velocity", n |-> 2, c |-> "prefixed"],
   [s |-> "cm/s", d |-> "velocity", n |-> 3, c |-> "cgs"],
@@ -321,6 +324,11 @@ Units == <<
 \* other values (class "reval": spellings containing them) and which defines code units (class "code").  A string target
 \* is read in the input's registry.  Forms of a target: a string, a Unit object of the input's registry, a Unit object of
 \* the default registry.
+\* offset scales: a reading y in the unit means the absolute temperature (y + off) * scale (scale: the unit's size in
+\* kelvin); both offsets are exact by definition (0 degC = 273.15 K, 0 degF = 459.67 R).  The symbolic values of the
+\* specification are always absolute (SI); the offset only enters where a number is written in / read from the unit.
+Offsets == <<[s |-> "degC", off |-> <<27315, 100>>], [s |-> "degF", off |-> <<45967, 100>>]>>
+IsOffset(i) == Units[i].c = "offset"
 Regs == {"default", "custom"}
 TForms == {"str", "uin", "udef"}
 UnitInReg(i, reg) == IF reg = "default" THEN Units[i].c # "code" ELSE TRUE
@@ -391,6 +399,7 @@ Outcome(o, q) ==
   ELSE IF ta \notin EqDims(q.eq) THEN Raise("InvalidUnitEquivalence")       \* has_equivalent gate
   ELSE IF tb \notin EqDims(q.eq) THEN Raise("InvalidUnitEquivalence")       \* Equivalence.convert membership check
   ELSE IF ip /\ Bytes(o.dt) = 1 THEN Raise("TypeError")    \* no 1-byte float to retype the buffer to
+  ELSE IF IsOffset(o.u) THEN Raise("InvalidUnitOperation")  \* every chain starts with mul/div/pow of the input: refused for a reading on an offset scale
   ELSE LET rs == [i \in DOMAIN o.v |-> RunProg(q.eq, ta, tb, q.k, o.v[i], ip)] IN
        IF \A i \in DOMAIN o.v : rs[i].ok
        THEN [k |-> "ok", exc |-> "", path |-> "equiv", v |-> [i \in DOMAIN o.v |-> rs[i].v], u |-> q.tu,
